@@ -91,7 +91,7 @@ def gen_cases(chk, mags, fixbits, scale):
     for c in [c for c in cases if c.tag == "core-pair"][::5]:
         cases.append(Case("pad:" + c.op, c.a, c.k, "", "spare-words"))
     # 2. seeded sample of pairs over the whole lattice (the thorough tier's lattice has every k <= 400)
-    npairs = int((300000 if T else 4000) * scale)
+    npairs = int((200000 if T else 4000) * scale)
     for i in range(npairs):
         a, b = rng.choice(L), rng.choice(L)
         for op in rng.sample(INT2, 2 if T else 3):
@@ -119,7 +119,7 @@ def gen_cases(chk, mags, fixbits, scale):
         r = rng.choice([0, 1, abs(b) - 1, rng.randrange(abs(b))])
         add(rng.choice(DIVOPS[:9]), (q * b + r, b), tag="div-pattern")
     # 4. seeded random integers
-    for i in range(int((120000 if T else 4000) * scale)):
+    for i in range(int((80000 if T else 4000) * scale)):
         mb = 4000 if (T and i % 40 == 0) else (1500 if i % 100 == 0 else 400)
         a, b = rnd_int(rng, mb), rnd_int(rng, rng.choice([mb, mb, 64, 130]))
         op = rng.choice(INT2)
@@ -169,7 +169,7 @@ def gen_cases(chk, mags, fixbits, scale):
         if r < 0.5:
             return Fraction(rnd_int(rng, 300))
         return rnd_rat()
-    for i in range(int((120000 if T else 4000) * scale)):
+    for i in range(int((80000 if T else 4000) * scale)):
         x, y = rnd_rat(), rnd_any()
         if rng.random() < 0.5:
             x, y = y, x
